@@ -77,11 +77,31 @@ var freshTab sync.Map // Call.String() -> *outcome
 // the world = one live runtime + what the oracle knows about it
 
 type world struct {
-	e *env
-	m mstate
+	e     *env
+	m     mstate
+	fresh int // how the fresh-runtime differential of faulted calls is obtained
 }
 
-func newWorld() *world { return &world{e: newEnv()} }
+const (
+	freshNone    = iota // not compared (the single-call sweep of the quick tier, which fills the table)
+	freshTable          // compared when the table has the call
+	freshCompute        // table, computed on a brand-new runtime when missing
+)
+
+func newWorld() *world { return &world{e: newEnv(), fresh: freshCompute} }
+
+// freshOutcome is what a faulted call of a stateless shape does as the first call of a brand-new runtime.
+func freshOutcome(c Call, compute bool) *outcome {
+	if v, ok := freshTab.Load(c.String()); ok {
+		return v.(*outcome)
+	}
+	if !compute {
+		return nil
+	}
+	o := newEnv().exec(c.Entry, c.Shape, c.Faults...)
+	freshTab.Store(c.String(), o)
+	return o
+}
 
 func normTag(t string) string {
 	t = strings.ReplaceAll(t, "[object Object]", "<F>")
@@ -113,10 +133,10 @@ func expectedVal(entry, v string) string {
 }
 
 // judgeCall executes one call on w and evaluates every oracle. ctx names the part for signatures.
-func (w *world) judgeCall(c Call) (o *outcome, fails []failure) {
+func (w *world) judgeCall(c Call, probe bool) (o *outcome, fails []failure) {
 	rd := getRef()
 	add := func(sig, what string) {
-		fails = append(fails, failure{sig + "|" + faultClass(c) + "|" + c.Entry + "|" + c.Shape, short(what)})
+		fails = append(fails, failure{sig + "|" + faultClass(c) + "|" + boundary(c.Entry) + "|" + family(c.Shape), short(what)})
 	}
 	e := w.e
 	o = e.exec(c.Entry, c.Shape, c.Faults...)
@@ -134,9 +154,8 @@ func (w *world) judgeCall(c Call) (o *outcome, fails []failure) {
 	if o.Err == "interrupted" {
 		add("spurious-interrupt", fmt.Sprintf("%v: InterruptedError although nobody interrupted", c))
 	}
-	uncatchable := o.Err == "overflow" || o.Err == "panic:foreign"
 	if o.Err == "overflow" && len(o.AfterAbort) > 0 {
-		add("jobs-survive:"+classifyTags(o.AfterAbort), fmt.Sprintf("%v: code of the aborted call ran during the next call: %v", c, o.AfterAbort))
+		add("jobs-survive", fmt.Sprintf("%v: code of the aborted call ran during the next call: %v", c, o.AfterAbort))
 	}
 	if isStateful(c.Shape) {
 		w.judgeStateful(c, o, add)
@@ -173,18 +192,30 @@ func (w *world) judgeCall(c Call) (o *outcome, fails []failure) {
 				add("wrong-error", fmt.Sprintf("%v: host received %s, want %s or completion", c, o.Err, excClass(f.Kind)))
 			}
 		}
-		if len(c.Faults) == 1 && !(f.Kind == "throw") {
-			// differential: inside a history the faulted call behaves as it did on a fresh runtime
-			if v, ok := freshTab.Load(c.String()); ok {
-				if fo := v.(*outcome); !sameOutcome(o, fo) {
-					add("differs-from-fresh", fmt.Sprintf("%v: %v; on a fresh runtime: %v", c, o, fo))
-				}
+		if len(c.Faults) == 1 && w.fresh != freshNone {
+			// differential: inside a history the faulted call behaves as it does on a brand-new runtime
+			if fo := freshOutcome(c, w.fresh == freshCompute); fo != nil && !sameOutcome(o, fo) {
+				add("differs-from-fresh", fmt.Sprintf("%v: %v; as the first call of a brand-new runtime: %v", c, o, fo))
 			}
 		}
 	}
-	_ = uncatchable
-	fails = append(fails, w.after(c)...)
+	if len(c.Faults) > 1 && o.Err != "" && o.Err != "exc:payload" && !(o.Err == "overflow" && hasKind(c, "limit")) && !strings.HasPrefix(o.Err, "panic:") {
+		add("wrong-error", fmt.Sprintf("%v: host received %s, which is none of the injected failures", c, o.Err))
+	}
+	fails = append(fails, w.after(c, probe)...)
 	return
+}
+
+// family names the kind of execution context a shape keeps live at its probe points (signature component: the same
+// oracle failing for a generator shape and for a plain shape are different findings).
+func family(shape string) string {
+	switch shape {
+	case "generator", "genreturn", "yieldstar", "gendelegates", "globalgen", "paraminit":
+		return "generator"
+	case "async", "asyncreject", "asyncchain", "promises", "iterbuiltins", "pending":
+		return "async"
+	}
+	return "sync"
 }
 
 func extraTags(got, want []string) []string {
@@ -216,17 +247,21 @@ func faultClass(c Call) string {
 }
 
 // after evaluates the state oracles that hold after EVERY call: white-box idle state, behavioural probe, script globals.
-func (w *world) after(c Call) (fails []failure) {
+func (w *world) after(c Call, probe bool) (fails []failure) {
 	rd := getRef()
 	add := func(sig, what string) {
-		fails = append(fails, failure{sig + "|" + faultClass(c) + "|" + c.Entry + "|" + c.Shape, short(what)})
+		fails = append(fails, failure{sig + "|" + faultClass(c) + "|" + boundary(c.Entry) + "|" + family(c.Shape), short(what)})
 	}
 	e := w.e
 	if st := idleOf(e.R); st != rd.idle {
-		add("not-idle:"+idleDiff(rd.idle, st), fmt.Sprintf("after %v the runtime is not idle: %+v (idle: %+v)", c, st, rd.idle))
+		// the white-box state explains whatever the probe would see: report the root only
+		add("not-idle:"+idleDiff(rd.idle, st), fmt.Sprintf("after %v the runtime is not idle: %s", c, idleDelta(rd.idle, st)))
+		return
 	}
-	if p := e.probe(); p != rd.probe {
-		add("probe:"+probeDiff(rd.probe, p), fmt.Sprintf("after %v the probe gives %q, on a fresh runtime %q", c, p, rd.probe))
+	if probe {
+		if p := e.probe(); p != rd.probe {
+			add("probe:"+probeDiff(rd.probe, p), fmt.Sprintf("after %v the probe gives %q, on a fresh runtime %q", c, p, rd.probe))
+		}
 	}
 	d, err := e.dump(goja.Undefined())
 	if err != nil || d.String() != w.m.dump() {
@@ -311,7 +346,7 @@ func judgeHistory(h []Call, r *core.Run) (fails []failure) {
 		if r != nil {
 			r.Eval(1)
 		}
-		_, fs := w.judgeCall(c)
+		_, fs := w.judgeCall(c, true)
 		fails = append(fails, fs...)
 	}
 	return dedupe(fails)
